@@ -24,6 +24,9 @@ Monitors (written against the property statements, evaluated after EVERY event):
         restart:position-executed-twice-in-generation
       * the restart never claims more committed than the node knew   restart:commit-index-beyond-known
       * an entry once known committed never changes on any node   restart:committed-entry-changed
+      * (C04) once a restarted node is back, every position reported committed is still stored by a majority of
+        the voters (log or applied snapshot; dead nodes count with what they held when killed)
+        restart:committed-entry-not-majority-backed
       * every callback that reported SUCCESS: command executed at exactly one position (callback:*), and
         after the final heal every node's state contains it   restart:success-lost
       * the constructor / first tick never raise   restart:recovery-raises:<Exc>
@@ -59,7 +62,7 @@ import time
 from harness import monitors
 from harness.sim import Sim
 
-PROPERTIES = ["C06", "C07", "C10"]
+PROPERTIES = ["C04", "C06", "C07", "C10"]
 ORDER = 60
 
 IDS = ["a", "b", "c", "d", "e"]
@@ -72,6 +75,8 @@ C07_SIGS = ("restart:vote-granted-twice-in-term", "election:vote-granted-twice-i
             "election:older-term-append-accepted", "election:older-term-vote-granted")
 
 
+C04_SIGS = ("restart:committed-entry-changed", "restart:committed-entry-not-majority-backed",
+            "restart:commit-index-beyond-known", "commit:index-moved-backwards")
 C10_SIGS = ("restart:members-not-fold-of-journal-over-dump", "restart:member-sets-differ-at-quiescence")
 
 
@@ -80,6 +85,8 @@ def for_property(pid, sig):
     C10 (membership across restarts): ONLY the member-set signatures, whatever else a schedule trips."""
     if pid == "C10":
         return sig in C10_SIGS
+    if pid == "C04":
+        return sig in C04_SIGS       # commit statements only: a lost vote or a lost uncommitted entry is not C04's
     is7 = sig in C07_SIGS
     if pid == "C07":
         return is7 or sig.startswith("restart:recovery-raises") or sig.startswith("exception-escaped")
@@ -627,6 +634,7 @@ class Runner(object):
                       "node %s had acknowledged / knew committed up to index %d (log %d..%d) when it was killed; after the "
                       "restart and the first tick (dump loaded: applied=%d) its journal holds %d..%d — missing indices %s"
                       % (i, b["need"][-1][0], b["log"][0][0], b["log"][-1][0], la, first, lastidx, [x[0] for x in lost][:8]))
+        self._majority_check(i)
         if first > la + 1:
             self.wedged.add(i)
             if not self.has_dump_conf:
@@ -642,6 +650,32 @@ class Runner(object):
             self.flag("restart:state-not-replay-of-committed-prefix",
                       "node %s after restart and first tick: applied=%d but it knows commit=%d (journal %d..%d)"
                       % (i, la, c, first, lastidx))
+
+    def _majority_check(self, i):
+        """C04 across restarts: every position some node reported committed is still stored by a majority of the
+        voters once node i is back (in the log, or under the applied snapshot; a dead or not yet ticked node counts
+        with what it held when it was killed = what its files hold)"""
+        sim = self.sim
+        views = {}
+        for v in self.V:
+            if v in sim.objs and v not in self.fresh:
+                lg = sim.log_of(v)
+                views[v] = (set((x[0], x[1]) for x in lg), lg[0][0], sim.objs[v].raftLastApplied)
+            elif v in self.before:
+                b = self.before[v]
+                views[v] = (set((x[0], x[1]) for x in b["log"]), b["log"][0][0] if b["log"] else 1, b["applied"])
+            elif v in sim.objs:
+                lg = sim.log_of(v)
+                views[v] = (set((x[0], x[1]) for x in lg), lg[0][0], 1)
+        self.cov["restart:committed-positions-majority-checked"] += len(self.committed)
+        for idx in sorted(self.committed):
+            term = self.committed[idx][0]
+            holders = [v for v, (ents, first, la) in views.items() if (idx, term) in ents or (idx < first and idx <= la)]
+            if 2 * len(holders) <= len(self.V):
+                self.flag("restart:committed-entry-not-majority-backed",
+                          "position %d (term %d) was reported committed; after the restart of node %s only %s of the voters %s "
+                          "still store it" % (idx, term, i, holders, self.V))
+                break
 
     # -- composite helpers (emit atomic events) --------------------------------------------------------
     def deliver_all(self, among=None, limit=4000):
@@ -1010,6 +1044,46 @@ def base_conflict(r):
     return {"leader": N, "followers": [i for i in V if i != N], "old": L}
 
 
+def base_minority(r):
+    """a follower installs the leader's snapshot, then the OTHER follower is cut off: the next commands are committed
+    on the strength of the first follower's acknowledgement alone; then the leader is cut off for good and the two
+    followers go on"""
+    V = r.V
+    info = base_snapshot(r)
+    if not info:
+        return {}
+    L, lag = info["leader"], info["lag"]
+    other = [i for i in V if i not in (L, lag)]
+    for o in other:
+        for j in V:
+            if j != o:
+                r.ev("cut", o, j)
+                r.ev("notice", o, j)
+                r.ev("notice", j, o)
+    ins = [i for i in V if i not in other]
+    for k in range(2):
+        r.ev("submit", L, "w%d" % k)
+    r.rounds(4, among=ins)
+    if r.sim.leader(ins) != L:
+        return {}
+    for j in V:
+        if j != L:
+            r.ev("cut", L, j)
+            r.ev("notice", L, j)
+            r.ev("notice", j, L)
+    rest = [i for i in V if i != L]
+    for n, a in enumerate(rest):
+        for b in rest[n + 1:]:
+            r.ev("connect", a, b)
+    N = r.elect(among=rest)
+    if N is None:
+        return {}
+    r.ev("submit", N, "z0")
+    r.rounds(4, among=rest)
+    info["new"] = N
+    return info
+
+
 def base_members(r):
     """dynamicMembershipChange: a (never reachable) node x joins and leaves, dumps are taken in between, and a deposed
     leader holds an uncommitted `add y` that the new leader's log replaces"""
@@ -1060,13 +1134,14 @@ def base_members(r):
 
 
 BASES = {"vote": base_vote, "replication": base_replication, "snapshot": base_snapshot, "conflict": base_conflict,
-         "members": base_members}
+         "members": base_members, "minority": base_minority}
 # (conflict: one batch per tick — with several pipelined batches and a conflicting LAST entry on the follower
 #  the real code alternates between two reset replies forever; a progress matter (C05), see notes/restart.md)
 BASE_CONF = {"vote": {}, "replication": {"appendEntriesBatchSizeBytes": 24},
              "snapshot": {"logCompactionBatchSize": 16, "appendEntriesBatchSizeBytes": 24},
              "conflict": {"appendEntriesBatchSizeBytes": 2 ** 16},
-             "members": {"dynamicMembershipChange": True, "appendEntriesBatchSizeBytes": 64}}
+             "members": {"dynamicMembershipChange": True, "appendEntriesBatchSizeBytes": 64},
+             "minority": {"logCompactionBatchSize": 16, "appendEntriesBatchSizeBytes": 24}}
 
 
 def record_base(repo, name, spec, tmpdir):
@@ -1246,6 +1321,22 @@ def plan(ctx):
         for k in range(ctx.scale(8, 1500)):
             items.append(("random-members", k, ctx.scale(200, 420)))
         return items
+    if ctx.pid == "C04":
+        # commit statements across restarts (C04's own components never restart a node)
+        quick = ctx.tier == "quick"
+        kinds = ("between", "at-send", "repeat")
+        for (name, n, dump, qs, ts, K) in (("minority", 3, True, 3, 1, 12), ("minority", 3, False, 6, 1, 12),
+                                           ("snapshot", 3, True, 12, 1, 12), ("replication", 3, True, 16, 1, 12),
+                                           ("conflict", 3, False, 12, 1, 12), ("minority", 5, True, 0, 2, 16),
+                                           ("replication", 5, False, 0, 2, 16)):
+            if quick and qs:
+                items.append(("directed", name, n, dump, qs, ctx.seed, kinds, (0, 1)))
+            elif not quick:
+                for j in range(K):
+                    items.append(("directed", name, n, dump, ts, ctx.seed, kinds, (j, K)))
+        for k in range(ctx.scale(6, 1500)):
+            items.append(("random", k, ctx.scale(220, 420)))
+        return items
     if os.path.isdir(CORPUS):
         for fn in sorted(os.listdir(CORPUS)):
             if fn.endswith(".json") and fn.startswith("sched-"):
@@ -1304,7 +1395,7 @@ def plan(ctx):
 def run(ctx):
     t0 = time.time()
     items = plan(ctx)
-    budget = ctx.scale(5.0 if ctx.pid == "C10" else 17.0, 270.0)
+    budget = ctx.scale({"C10": 5.0, "C04": 7.0}.get(ctx.pid, 17.0), 270.0)
     deadline = t0 + budget
     root = ctx.tmpdir()
     # long directed items first, random ones fill the remaining time
@@ -1358,7 +1449,10 @@ def assemble(ctx, results, t0, planned, skipped=0):
            "disagreements": [], "violations": viols, "wall_s": round(time.time() - t0, 2),
            "notes": "planned items %d, schedules run %d, skipped by deadline %d" % (planned, cases, skipped + cov.get("deadline-cut", 0))}
     need = ["kill", "restart", "kill:leader", "kill:all-dead", "kill-at-send", "acked-entries-checked", "finale:converged"]
-    if ctx.pid == "C10":
+    if ctx.pid == "C04":
+        need = ["kill", "restart", "kill:leader", "kill:majority-dead", "restart:dump-loaded", "finale:converged",
+                "restart:committed-positions-majority-checked"]
+    elif ctx.pid == "C10":
         need = ["kill", "restart", "member:add", "member:rem", "finale:member-sets-compared",
                 "restart:members-checked-over-dump-with-later-entries",
                 "restart:membership-entry-held-at-restart-later-dropped"]
